@@ -47,7 +47,7 @@ Definition marshal_bool (s : signal) (d : data) (value : bool) : data :=
 (** * int64 arithmetic with Go's wrap-around *)
 (** the int64 value of the low 64 bits of a mathematical integer *)
 Definition wrap_i64 (x : Z) : Z := i64_of_u64 (x mod 2 ^ 64).
-(** [x << n] on int64 with an unsigned shift count (count >= 64 gives 0 for x >= 0) *)
+(** [x << n] on int64 with an unsigned shift count (count >= 64 shifts every bit out: 0) *)
 Definition shl_i64 (x n : Z) : Z := if n <? 64 then wrap_i64 (Z.shiftl x n) else 0.
 
 (** * Raw bounds *)
